@@ -232,6 +232,36 @@ def v_records(tier: str, rng: random.Random):
 
     all_fmt = []
     texts = []
+
+    def token_checks(text, cap):
+        """(start, line, column) of the tokens the real lexer produces - the lexer's incremental line / line_start
+        bookkeeping (also inside block strings and after comments) against Loc"""
+        from graphql.language import Lexer, TokenKind
+        lx = Lexer(Source(text))
+        toks = []
+        try:
+            while True:
+                t = lx.advance()
+                toks.append([t.start, t.line, t.column, t.kind.name])
+                if t.kind == TokenKind.EOF:
+                    break
+        except GraphQLError:
+            pass
+        if len(toks) > cap:
+            # keep the tokens that follow a block string, plus a seeded sample of the others
+            keep = [k for k in range(1, len(toks)) if toks[k - 1][3] == "BLOCK_STRING"]
+            rest = [k for k in range(len(toks)) if k not in keep]
+            keep += rng.sample(rest, max(0, min(len(rest), cap - len(keep))))
+            toks = [toks[k] for k in sorted(keep)]
+        return [t[:3] for t in toks]
+
+    # block-string snippets: tokens on the line on which a block string ends, every terminator inside and around it
+    terms = ["\n", "\r", "\r\n"]
+    for _ in range(150 if tier == "quick" else 1500):
+        body = "".join(rng.choice(["a", " b", "", "  "]) + rng.choice(terms + [""]) for _ in range(rng.randrange(1, 5)))
+        text = rng.choice(["{ f(x: ", '"d" ', "", "#c" + rng.choice(terms)]) + '"""' + body + '"""' + rng.choice([" b", "b", ") { c }", " #c" + rng.choice(terms) + "d"]) \
+            + rng.choice(["", rng.choice(terms) + " e", ' """x' + rng.choice(terms) + '""" f'])
+        recs.append({"src": abstract_text(text), "checks": token_checks(text, 60), "what": "tokens"})
     for base in corpus + V_DOCS:
         for k in range(n_var):
             texts.append(base if k == 0 else rewrite_terminators(base, rng))
@@ -247,6 +277,7 @@ def v_records(tier: str, rng: random.Random):
                 recs.append(r); all_fmt += [(bad, x) for x in f]
             except Exception:  # noqa: BLE001
                 pass
+        recs.append({"src": abstract_text(text), "checks": token_checks(text, 40), "what": "tokens"})
         try:
             doc = parse(Source(text))
         except GraphQLError:
@@ -305,14 +336,16 @@ def run(tier: str, rd):
     for text, p in fmt_problems:
         vd.violation("format-" + str(p[0]), {"text": text[:200]}, p)
     if vrecs:
-        cases = [{"src": x["src"], "checks": x["checks"]} for x in vrecs if x["checks"]]
+        vrecs_c = [x for x in vrecs if x["checks"]]
+        cases = [{"src": x["src"], "checks": x["checks"]} for x in vrecs_c]
         p = common.write_cases(rd, "cases.json", cases)
         r2 = run_tlc(rd, "LocationV", "INIT VInit\nNEXT VNext\nINVARIANT Check\nCONSTANT MaxLen = 0\n",
                      env={"CASES": str(p)}, timeout=1800)
         ev.add_tlc("V: error locations of generated erroneous documents", r2)
         for out in r2.json_lines():
             c = cases[out["viol"] - 1]
-            vd.violation("error-location", {"src_symbols": c["src"][:300]}, {"checks": out["checks"], "want": out["want"]})
+            clause = "token-line-column" if vrecs_c[out["viol"] - 1]["what"] == "tokens" else "error-location"
+            vd.violation(clause, {"src_symbols": c["src"][:300]}, {"checks": out["checks"], "want": out["want"]})
         ev.traces += len(cases)
         kinds = {}
         for x in vrecs:
